@@ -57,3 +57,46 @@ package leaderrotation
 //@   requires t.config != nil && (t.config.tree != nil ==> len(t.config.tree.treePosToID) >= 1)
 //@   ensures [no-tree] t.config.tree == nil ==> result == 1
 //@   ensures [root] t.config.tree != nil ==> tree.isPos(*t.config.tree, result, 0)
+
+// ---- carousel (C16: "an active carousel picks a signer of the certificate embedded in the
+// latest committed block that proposed none of the last f committed blocks"; it "never returns
+// an unknown replica" as far as the certificate's signers are configured replicas, C02).
+// The ghost trace `authors` records the blocks whose proposers are excluded (recorded where
+// GetLeader reads a block's proposer): the first is the latest committed block, each next one
+// is the block the previous one names as its parent (as returned by the block store), at most f
+// of them. The result is either the round-robin leader (start-up, or the committed head is not
+// chainLength views behind) or a signer of the committed head's certificate that proposed none
+// of the recorded blocks.
+// Assumed (reported in the evidence): when the carousel is active at least one signer of the
+// certificate is not among the excluded proposers — true for a certificate with a quorum
+// (2f+1 > f signers); proving it needs a counting argument over a complete iteration of the
+// signer set, which the iterator model does not give.
+//@ pure func ablk(k int) *hotstuff.Block = asptr(traceat(authors, 0, k), hotstuff.Block)
+//@ func (*Carousel).GetLeader property C16
+//@   requires c.viewStates != nil && c.viewStates.committedBlock != nil && c.config != nil && c.logger != nil && c.blockchain != nil && hotstuff.genesisBlock != nil
+//@   requires 1 <= len(c.config.replicas) && len(c.config.replicas) <= 4294967295
+//@   requires blockchain.binv(c.blockchain) && blockchain.bmaps(c.blockchain) && c.blockchain.sender != nil && c.blockchain.eventLoop != nil
+//@   ghost at call Proposer :: emit authors(op0)
+//@   ghost at call Int :: assume len(*candidates) > 0
+//@   ghost at call Int :: assert forall j int :: {(*candidates)[j]} 0 <= j && j < len(*candidates) ==> hotstuff.setmem(hotstuff.parts(commitHead.cert.signature), (*candidates)[j])
+//@   ghost at call Int :: assert forall j int, k int :: {(*candidates)[j], (*lastAuthors)[k]} 0 <= j && j < len(*candidates) && 0 <= k && k < len(*lastAuthors) ==> (*lastAuthors)[k] != (*candidates)[j]
+//@   ghost at call Int :: assert len(*lastAuthors) == tracelen(authors) - old(tracelen(authors)) && (forall k int :: {traceat(authors, 0, k)} old(tracelen(authors)) <= k && k < tracelen(authors) ==> (*lastAuthors)[k - old(tracelen(authors))] == ablk(k).proposer)
+//@   opt noframe true
+//@   ensures [round-robin-or-signer] result == round % len(c.config.replicas) + 1 || hotstuff.setmem(hotstuff.parts(old(c.viewStates.committedBlock).cert.signature), result)
+//@   ensures [not-a-recent-proposer] result == round % len(c.config.replicas) + 1 && tracelen(authors) == old(tracelen(authors)) || (forall k int :: {traceat(authors, 0, k)} old(tracelen(authors)) <= k && k < tracelen(authors) ==> ablk(k).proposer != result)
+//@   ensures [excluded-blocks-are-the-committed-chain] tracelen(authors) > old(tracelen(authors)) ==> ablk(old(tracelen(authors))) == old(c.viewStates.committedBlock)
+//@   ensures [excluded-blocks-chain] forall k int :: {traceat(authors, 0, k), traceat(authors, 0, k + 1)} old(tracelen(authors)) <= k && k + 1 < tracelen(authors) ==> ablk(k + 1).hash == ablk(k).parent
+//@   ensures [at-most-f] tracelen(authors) - old(tracelen(authors)) <= hotstuff.F(len(c.config.replicas))
+//@   loop 0 invariant [i] 0 <= i && i <= f
+//@   loop 0 invariant [events] tracelen(authors) == old(tracelen(authors)) + i
+//@   loop 0 invariant [list] len(*lastAuthors) == i && (cap(*lastAuthors) == 0 || fresh(*lastAuthors))
+//@   loop 0 invariant [authors] forall k int :: {(*lastAuthors)[k]} 0 <= k && k < i ==> (*lastAuthors)[k] == ablk(old(tracelen(authors)) + k).proposer
+//@   loop 0 invariant [authors-by-event] forall k int :: {traceat(authors, 0, k)} old(tracelen(authors)) <= k && k < tracelen(authors) ==> (*lastAuthors)[k - old(tracelen(authors))] == ablk(k).proposer
+//@   loop 0 invariant [first] i > 0 ==> ablk(old(tracelen(authors))) == commitHead
+//@   loop 0 invariant [chain] forall k int :: {traceat(authors, 0, k), traceat(authors, 0, k + 1)} old(tracelen(authors)) <= k && k + 1 < tracelen(authors) ==> ablk(k + 1).hash == ablk(k).parent
+//@   loop 0 invariant [next] (i == 0 ==> block == commitHead) && (i > 0 && ok ==> block != nil && block.hash == ablk(old(tracelen(authors)) + i - 1).parent) && (ok ==> block != nil)
+//@   loop 0 invariant [store] blockchain.binv(c.blockchain) && blockchain.bmaps(c.blockchain)
+//@   loop iter0 invariant [signers] forall j int :: {(*candidates)[j]} 0 <= j && j < len(*candidates) ==> hotstuff.setmem(hotstuff.parts(commitHead.cert.signature), (*candidates)[j])
+//@   loop iter0 invariant [not-recent] forall j int, k int :: {(*candidates)[j], (*lastAuthors)[k]} 0 <= j && j < len(*candidates) && 0 <= k && k < len(*lastAuthors) ==> (*lastAuthors)[k] != (*candidates)[j]
+//@   loop iter0 invariant [authors-by-event] len(*lastAuthors) == tracelen(authors) - old(tracelen(authors)) && (forall k int :: {traceat(authors, 0, k)} old(tracelen(authors)) <= k && k < tracelen(authors) ==> (*lastAuthors)[k - old(tracelen(authors))] == ablk(k).proposer)
+//@   loop iter0 invariant [lists] (cap(*candidates) == 0 || fresh(*candidates)) && (cap(*lastAuthors) == 0 || fresh(*lastAuthors)) && (cap(*candidates) > 0 && cap(*lastAuthors) > 0 ==> disjoint(*candidates, *lastAuthors))
